@@ -250,9 +250,13 @@ def bodies_theorems(prefixes=None):
     import os
     p = os.path.join(core.VERIF, "tools", "bodies_theorems.txt")
     names = [l.strip() for l in open(p)] if os.path.exists(p) else []
+    # always audited: the summary, the two facts about the real dispatcher, and the instantiation theorem that replaces
+    # trust in Model/EvalG.lean's copy of the evaluator (the stream `runG` every caller of this library uses)
+    fixed = ["KaVerif.BODIES_table", "KaVerif.BODIES_numdisp_real", "KaVerif.BODIES_numsem_real", "KaVerif.BODIES_evalG_instance"]
+    names = [n for n in names if n not in fixed]
     if prefixes is not None:
         names = [n for n in names if any(x in n for x in prefixes)]
-    return ["KaVerif.BODIES_table", "KaVerif.BODIES_numdisp_real", "KaVerif.BODIES_numsem_real"] + names
+    return fixed + names
 
 
 def bodies_coverage(ctx):
